@@ -19,7 +19,7 @@ Qed.
 Theorem each_operand_evaluated_exactly_once : forall rec e es s acc k,
   eval_rvals rec (e :: es) s acc k =
     match rec (CExpr e) s with
-    | Ok s1 => eval_rvals rec es s1 (r_rv s1 :: acc) k
+    | Ok s1 => eval_rvals rec es s1 (detach (r_st s1) (r_rv s1) :: acc) k
     | Err x s0 => Err x s0
     | Abort a => Abort a
     end.
